@@ -535,6 +535,13 @@ def record_and_validate(res, mode, cfgs, draws, module="Trace_Lanes", chunks=4, 
         tr = os.path.join(wd, f"rec.{mode}.{cfg}.ndjson")
         p = run_bin(cfg, "rec", [mode, tr, str(res.seed), str(draws)], env_extra=dict(({"HX_OPS": ",".join(ops)} if ops else {}), **({"HX_TYS": ",".join(tys)} if tys else {})))
         if p.returncode != 0:
+            m = re.search(r"REC-PANIC (\S+?):(\d+) :: (.*)", p.stderr)
+            if p.returncode == 3 and m and os.path.realpath(m.group(1)).startswith(os.path.realpath(REPO) + os.sep):
+                # an uncaught panic INSIDE the library while the recorder was calling it with valid operands: data, not a tool error
+                res.mismatches.append({"prop": prop or res.prop, "cfg": cfg, "ty": "recorder", "op": f"panic inside the library while recording ({mode})",
+                                       "what": f"{m.group(1)}:{m.group(2)} {m.group(3)[:300]}",
+                                       "case": {"fam": "recpanic", "mode": mode, "seed": res.seed, "draws": draws, "ops": ops, "tys": tys, "cfg": cfg}})
+                continue
             raise ToolError(f"rec {mode} failed in {cfg}: {p.stderr[-1500:]}")
         summ = json.load(open(tr + ".summary.json"))
         kinds = {k.split(":")[0] for k in summ["per_op"]}
@@ -642,6 +649,18 @@ def replay_dispatch(res, path, binname, only=None, env_keys=("ty",)):
             print(f"VIOLATION property={res.prop} replay={path}")
             return EXIT_VIOLATION
         print("replay: the specification accepts the recorded trace")
+        return EXIT_OK
+    if fam == "recpanic":
+        case = mm["case"]
+        build_all([case["cfg"]], ["rec"])
+        tr = os.path.join(WORK, res.prop, f"replay.{case['cfg']}.ndjson")
+        p = run_bin(case["cfg"], "rec", [case["mode"], tr, str(case["seed"]), str(case["draws"])],
+                    env_extra=dict(({"HX_OPS": ",".join(case["ops"])} if case.get("ops") else {}), **({"HX_TYS": ",".join(case["tys"])} if case.get("tys") else {})))
+        if p.returncode == 3 and "REC-PANIC" in p.stderr:
+            print(p.stderr[p.stderr.find("REC-PANIC"):][:400])
+            print(f"VIOLATION property={res.prop} replay={path}")
+            return EXIT_VIOLATION
+        print("replay: the recorder completes on the current tree")
         return EXIT_OK
     if fam == "crash":
         case, cfg = mm["case"], mm.get("cfg", "sse2")
